@@ -618,8 +618,17 @@ def main(argv):
             else:
                 raise ToolError("unknown step type " + stp["type"])
             steps.append(st)
-        vacuity(plan, steps)
-        return finish(prop, tier, seed, t0, steps, plan, known)
+        # a run that reports a violation is not vacuous, whatever part of the cases a crashing library left unexplored:
+        # the vacuity rule decides only whether a *silent* run may be believed
+        vac = None
+        try:
+            vacuity(plan, steps)
+        except ToolError as e:
+            vac = e
+        rc = finish(prop, tier, seed, t0, steps, plan, known)
+        if vac is not None and rc != 1:
+            raise vac
+        return rc
     except ToolError as e:
         print("TOOL-ERROR property=%s %s" % (prop, e))
         return 2
